@@ -16,12 +16,13 @@ RULE = ("Hypothesis: well-formed notes on 2 channels over 2-3 pitches (same pitc
         "velocities and the non-note events with ticks equal the source's; source content unchanged in both views. "
         "Non-trivial: a note crosses a boundary or an event sits exactly on a boundary. Distinct by case digest.")
 ASSUMPTIONS = ["an event exactly on a boundary may be in either adjacent piece (same absolute tick)"]
-TIERS = {"quick": dict(shards=8, examples=1500), "thorough": dict(size=2, shards=16, examples=25000)}
+TIERS = {"quick": dict(shards=8, examples=1500, alt_ppqn=[480], alt_shards=2),
+         "thorough": dict(size=2, shards=16, examples=25000, alt_ppqn=[480, 7, 1000], alt_shards=4)}
 
 
 @st.composite
 def _case(draw, size=1):
-    pitches = draw(st.sampled_from([(60, 61), (60, 61, 62), (60,)]))
+    pitches = draw(st.sampled_from([(60, 61), (60, 61, 62), (60,), (21, 108), (21, 108, 60), (0, 127), (20, 21, 108, 109)]))
     notes = draw(gens.wellformed_notes(channels=(0, 1), pitches=pitches, max_notes=8 * size, max_len=70, max_gap=30))
     end_n = max([n[3] for n in notes] + [0])
     ticks_pool = sorted({0, end_n} | {n[2] for n in notes} | {n[3] for n in notes})
